@@ -27,6 +27,7 @@ class Model:
     def __init__(self, case, variant):
         from inferno import learn, observe
 
+        self.case = case
         lc = dict(case["layer"])
         lc["conns"] = {k: dict(v) for k, v in lc["conns"].items()}
         if variant:  # the target instance starts from different parameter values
@@ -117,15 +118,35 @@ class Model:
                 st_["monitor/peek"] = p.detach().clone()
         return st_
 
+    def _container(self):
+        # model, trainers, reducers and classifier checkpointed together as submodules of one parent
+        return torch.nn.ModuleDict(dict(self.mods))
+
     def save(self):
         buf = io.BytesIO()
-        torch.save({name: m.state_dict() for name, m in self.mods.items()}, buf)
+        if self.case["container"]:
+            torch.save(self._container().state_dict(), buf)
+        else:
+            torch.save({name: m.state_dict() for name, m in self.mods.items()}, buf)
         return buf.getvalue()
 
     def load(self, blob):
         sd = torch.load(io.BytesIO(blob), weights_only=False)
-        for name, m in self.mods.items():
-            m.load_state_dict(sd[name], strict=True)
+        if self.case["container"]:
+            self._container().load_state_dict(sd, strict=True)
+        else:
+            for name, m in self.mods.items():
+                m.load_state_dict(sd[name], strict=True)
+
+    def clear_aux(self, keepshape):
+        """clear() of the stand-alone reducer / monitor (a documented operation at any time)."""
+        if self.reducer is not None:
+            self.reducer.clear(keepshape=keepshape)
+        if self.monitor is not None:
+            self.monitor.clear(keepshape=keepshape)
+
+    def clear_layer(self):
+        self.layer.clear()
 
 
 def _data(case, seed):
@@ -153,7 +174,17 @@ def run_case(case):
         A = Model(case, 0)
     blobs, obsA, stA = {}, [], []
     spikes = 0
+    def clears(model, t, who):
+        for ct, what in case["clears"]:
+            if ct == t:
+                with impl(f"{who}: {what} before step {t}"):
+                    if what == "layer":
+                        model.clear_layer()
+                    else:
+                        model.clear_aux(what == "aux_keepshape")
+
     for t in range(T):
+        clears(A, t, "A")
         with impl(f"A step {t}"):
             o = A.step(xs, t, labels, reward)
         obsA.append(o)
@@ -171,6 +202,8 @@ def run_case(case):
             Bm = Model(case, 1)
             for j in range(case["prerun"]):
                 Bm.step(oxs, j % T, olabels, oreward)
+            if case["target_clear"] is not None:
+                Bm.clear_aux(case["target_clear"])
         ok0, _ = B.states_equal(stA[k - 1], Bm.state())
         differed += 0 if ok0 else 1
         with impl(f"load_state_dict(strict=True) of checkpoint taken after step {k} into an instance pre-run {case['prerun']} steps"):
@@ -178,6 +211,7 @@ def run_case(case):
         ok, why = B.states_equal(stA[k - 1], Bm.state())
         check(ok, "restore:state", lambda: f"checkpoint after step {k}: state right after loading differs from the source: {why}")
         for t in range(k, T):
+            clears(Bm, t, f"resumed (checkpoint {k})")
             with impl(f"resumed step {t} (checkpoint {k})"):
                 o = Bm.step(xs, t, labels, reward)
             for name in obsA[t]:
@@ -192,6 +226,12 @@ def run_case(case):
             cls.append(k)
     if any(c.get("delay") for c in case["layer"]["conns"].values()):
         cls.append("delays")
+    if case["container"]:
+        cls.append("container")
+    for _, what in case["clears"]:
+        cls.append("clear:" + what)
+    if case["target_clear"] is not None:
+        cls.append(f"target_clear:{case['target_clear']}")
     return {"nt": bool(nt), "cls": cls}
 
 
@@ -223,6 +263,10 @@ def case_strategy(draw, tier="quick"):
     return {
         "layer": lc, "steps": T, "sseed": draw(st.integers(0, 99999)), "rate": draw(st.sampled_from([0.4, 0.7])),
         "prerun": draw(st.sampled_from([1, 1, 2, 5])), "trainers": trainers,
+        "container": draw(st.booleans()),
+        "clears": draw(st.lists(st.tuples(st.integers(1, T - 1), st.sampled_from(["aux_keepshape", "aux_keepshape", "aux", "layer"])).map(list),
+                                max_size=2)),
+        "target_clear": draw(st.sampled_from([None, None, True])),  # keepshape=False would break the documented shape precondition
         "reducer": draw(st.sampled_from([None, {"cls": "CA", "dur": 0, "inplace": False}, {"cls": "CA", "dur": 3, "inplace": True},
                                          {"cls": "EMA", "dur": 2, "inplace": False}, {"cls": "trace", "dur": 3, "inplace": False},
                                          {"cls": "event", "dur": 2, "inplace": True}])),
